@@ -44,6 +44,19 @@ def getter_order(ctx, rep):
                     e.value, ast.Name) and e.value.id == f.self_name
                     for e in n.value.elts):
             return f, n, [e.attr for e in n.value.elts]
+    # not written as a literal return: read it off the decision table
+    from ..dtable import explore
+    try:
+        paths = explore(f.node.body)
+    except AnalysisError:
+        paths = []
+    for p in paths:
+        v = p.value
+        if p.outcome == "return" and isinstance(v, ast.Tuple) and v.elts \
+                and all(isinstance(e, ast.Attribute) and isinstance(
+                    e.value, ast.Name) and e.value.id == f.self_name
+                    for e in v.elts):
+            return f, (p.stmt or f.node), [e.attr for e in v.elts]
     raise AnalysisError("%s: own-slots return not found" % f.qual)
 
 
@@ -197,6 +210,34 @@ def r13ab_rep_structure(ctx):
                     break
             if src is not None and src not in cells:
                 cells[src] = r0
+        if len(cells) < len(GROUPS):
+            # the dispatch is not written as one return per predicate:
+            # read the cells off the decision table (what is returned when
+            # which predicate holds, through tables of converters and
+            # conditional expressions)
+            from ..dtable import explore as _explore
+
+            class _Cell:
+                def __init__(self, value, stmt):
+                    self.value = value
+                    self.lineno = getattr(stmt, "lineno", f.node.lineno)
+                    self.col_offset = getattr(stmt, "col_offset", 0)
+                    self._pos = getattr(stmt, "_pos", None)
+            try:
+                paths_ = _explore(f.node.body)
+            except AnalysisError:
+                paths_ = []
+            for p_ in paths_:
+                if p_.outcome != "return" or p_.value is None or (
+                        isinstance(p_.value, ast.Constant) and
+                        p_.value.value is None) or p_.skipped:
+                    continue
+                for s in GROUPS:
+                    if p_.decisions.get("%s.get_is_%s_date()" % (
+                            f.self_name, REPNAME[s])) is True and \
+                            s not in cells:
+                        cells[s] = _Cell(p_.value, p_.stmt)
+                        break
         for s in GROUPS:
             rep.anchor(rule, "dispatch cells")
             key = ctx.fkey(f, None, "cell:%s<-%s" % (t, s))
@@ -221,7 +262,11 @@ def r13ab_rep_structure(ctx):
             want = "get_%s_date_from_%s_date" % (REPNAME[t], REPNAME[s])
             good, why = False, "returns %s" % U(r_.value)
             if isinstance(r_.value, ast.Call):
-                cs = ctx.in_func(f, r_).callees_of_call(r_.value)
+                if isinstance(r_, ast.Return):
+                    cs = ctx.in_func(f, r_).callees_of_call(r_.value)
+                else:
+                    g_ = f.module.functions.get(U(r_.value.func))
+                    cs = [g_] if g_ is not None else []
                 if len(cs) == 1 and cs[0].name == want:
                     params = cs[0].call_params
                     args = r_.value.args
